@@ -7,7 +7,7 @@ use proptest::prelude::*;
 use serde::{Deserialize, Serialize};
 use serde_json::json;
 
-const RULE: &str = "cases = byte strings; oracle = core::ffi::CStr::{from_bytes_until_nul, from_bytes_with_nul, to_bytes, to_bytes_with_nul, to_str}: success <=> success, equal CStr (same address), equal byte/str views (error kinds are not compared); non-trivial = byte string with an interior nul, a missing nul, or non-UTF-8 / multi-byte content before the nul; distinct by byte string";
+const RULE: &str = "cases = byte strings; oracle = core::ffi::CStr::{from_bytes_until_nul, from_bytes_with_nul, to_bytes, to_bytes_with_nul, to_str}: success <=> success, equal CStr (same address), equal byte/str views, and to_str's Utf8Error equal to CStr::to_str's (the constructors' error kinds are not compared); non-trivial = byte string with an interior nul, a missing nul, or non-UTF-8 / multi-byte content before the nul; distinct by byte string";
 
 #[derive(Serialize, Deserialize, Debug, Clone, Hash)]
 struct Case {
@@ -27,6 +27,10 @@ fn views(k: &CStr, what: &str) -> Result<(), String> {
     ensure!(a.is_ok() == b.is_ok(), "{what}: to_str konst ok={} std ok={}", a.is_ok(), b.is_ok());
     if let (Ok(a), Ok(b)) = (a, b) {
         ensure!(a == b && a.as_ptr() == b.as_ptr(), "{what}: to_str konst {a:?} std {b:?}");
+    }
+    // the error is std's own Utf8Error in a public newtype: it must be the one CStr::to_str reports
+    if let (Err(a), Err(b)) = (a, b) {
+        ensure!(a.0 == b, "{what}: to_str error konst {:?} std {:?}", a.0, b);
     }
     Ok(())
 }
@@ -73,6 +77,9 @@ fn explore(ctx: &mut Ctx) {
     let l = ctx.by_tier(5, 6);
     gen::for_each_seq(&[0u8, b'a', 0xc3, 0xa9, 0x80], l, |s| eval(ctx, s));
     ctx.exhaustive_part(&format!("all byte strings of length <= {l} over {{0x00,'a',0xC3,0xA9,0x80}} (valid and invalid UTF-8 before the nul)"));
+    let l = ctx.by_tier(5, 6);
+    gen::for_each_seq(&[0u8, 0xe4, 0xbd, 0xf0, 0x9f], l, |s| eval(ctx, s));
+    ctx.exhaustive_part(&format!("all byte strings of length <= {l} over {{0x00,0xE4,0xBD,0xF0,0x9F}} (complete and incomplete 3- / 4-byte sequences before the nul)"));
     // long byte strings (beyond the exhaustive bound): every length 0..=100 with no nul / exactly one nul at every
     // position / a second nul right after or at the end
     for len in 0..=100usize {
